@@ -31,3 +31,13 @@ package audit
 //@ func NewFile(path) (w, err)
 //@   ensures [C05 newfile.result] err != nil ==> w == nil
 //@   at call OpenFile: assert [C05 audit-file-flags] arg_flag == 1089 && arg_perm == 384
+
+// New wires the encoder to the given sink: the writer db.Open requires (enc != nil) is what New returns.
+//@ func New(w) (l)
+//@   ensures [C06 new.ready] l != nil && fresh(l) && l.enc != nil && l.w == w
+//@   ensures [C06 new.writes-nothing] auditLog == old(auditLog)
+// Close syncs before closing and never appends.
+//@ func (*Writer).Close(l) (err)
+//@   requires l != nil
+//@   ensures [C06 close.log-untouched] auditLog == old(auditLog)
+//@   ensures [C06 close.syncs-first] (err == nil && implements(l.w, "syncer")) ==> auditSynced == auditLog
